@@ -58,6 +58,21 @@ def rtOp (md msgs : String) : String :=
       s!"mode={showMode md'} msgs={showList (fs.map showBytes)} end={showErr e}"
   | _, _ => "bad-op"
 
+/-- `c08.dl`: the client reads the stream `down` and the peer the stream `up` (mode `md`, the repository's TCP
+connection with a short read timeout, idle times and late draining as the variant says). Timing is not part
+of the model: a stream of frames read back is the list of messages, so both directions are answered by
+`rtOp`; in the variants that leave one more read pending with nothing to arrive, that read — and only it —
+ends with the read timeout. -/
+def dlOp (md variant t idle down up : String) : String :=
+  if !(["widle", "wpend", "wslow", "ridle", "rslow"].contains variant) then "bad-op" else
+  if t.toNat?.isNone || idle.toNat?.isNone then "bad-op" else
+  let rx := rtOp md down
+  let tx := rtOp md up
+  if rx == "bad-op" || tx == "bad-op" then "bad-op" else
+  let rx := if (variant == "wpend" || variant == "wslow") && rx.endsWith "end=eof"
+    then (rx.dropEnd 3).toString ++ "timeout" else rx
+  s!"rx: {rx} | tx: {tx}"
+
 def handle : List String → String
   | ["c08.write", md, msgs] =>
     match parseMode? md, parseBytesList? msgs with
@@ -78,6 +93,7 @@ def handle : List String → String
         let (fs, e) := readAll md' (s.length + 1) s
         s!"mode={showMode md'} msgs={showList (fs.map showBytes)} end={showErr e}"
     | none => "bad-op"
+  | ["c08.dl", md, variant, t, idle, down, up] => dlOp md variant t idle down up
   | "c08.tcp" :: md :: _splits :: items =>
     match parseMode? md with
     | some md =>
